@@ -43,6 +43,40 @@ class Obligation:
         return d
 
 
+class SecondReading:
+    """The checker as seen by a second analysis of the same code under
+    another reading of it (python -O: assert statements removed).  Only what
+    differs from the first reading is recorded: an obligation with the same
+    rule, construct and verdict as one of the first run is dropped, the
+    others are kept with the reading's tag on the construct."""
+
+    def __init__(self, chk, tag):
+        self._chk, self._tag = chk, tag
+        self._first = {(o.rule, o.construct, o.ok) for o in chk.obligations}
+        self._und = {(u['rule'], u['construct']) for u in chk.undecided}
+        self.extra_obligations = 0
+
+    def __getattr__(self, name):
+        return getattr(self._chk, name)
+
+    def ob(self, rule, construct, ok, fact='', detail=None, site=None,
+           nontrivial=True):
+        if (rule, str(construct), bool(ok)) in self._first:
+            return bool(ok)
+        self.extra_obligations += 1
+        return self._chk.ob(rule, '%s %s' % (construct, self._tag), ok,
+                            fact, detail, site, nontrivial)
+
+    def undecide(self, rule, construct, why):
+        if (rule, str(construct)) in self._und:
+            return None
+        return self._chk.undecide(rule, '%s %s' % (construct, self._tag),
+                                  why)
+
+    def floor(self, rule, floor, what, count=None):
+        return None  # floors were checked in the first reading
+
+
 class Check:
     def __init__(self, pid, tier, repo, title=''):
         self.pid = pid
